@@ -56,6 +56,7 @@ func main() {
 	flag.IntVar(&cfg.MaxTicks, "ticks", 8, "ticker fires per path (horizon)")
 	flag.IntVar(&cfg.MakeCut, "makecut", 16, "continue symbolic make only up to this length")
 	flag.IntVar(&cfg.Delays, "delays", 0, "scheduler delay bound D")
+	flag.BoolVar(&cfg.TimerPreempt, "timerpreempt", false, "a pending timer may fire at any scheduling point (charged to the delay bound)")
 	flag.BoolVar(&cfg.Race, "race", false, "happens-before race detection")
 	flag.StringVar(&cfg.Solver, "solver", "z3", "z3 | z3-new | cvc5")
 	flag.StringVar(&cfg.XSolver, "xsolver", "", "second solver cross-checking every assertion verdict (z3-new | cvc5)")
